@@ -15,6 +15,10 @@ ELEMENTARY = ('p', 'px', 'py', 'pz', 'so', 's', 'sx', 'sy', 'sz',
               'c/x', 'c/y', 'c/z', 'cx', 'cy', 'cz',
               'k/x', 'k/y', 'k/z', 'kx', 'ky', 'kz', 'sq', 'gq',
               'tx', 'ty', 'tz', 'x', 'y', 'z')
+# sense in which the derived apothems s, t of a 9-entry RHP/HEX follow r about
+# h (+1: counter-clockwise seen from the tip of h; the manual does not say)
+RHP9_SENSE = 1
+
 MACROBODIES = ('box', 'rpp', 'sph', 'rcc', 'rhp', 'hex', 'rec', 'trc', 'ell',
                'wed', 'arb')
 
@@ -301,8 +305,10 @@ def facets(kind, par, pts, quirks=()):
             # regular hexagon: the other two apothem vectors are r rotated by
             # 60 and 120 degrees about h (numbering of facets 3-6 is a
             # convention the manual does not fix: see 'unjudged' in probes)
-            svec = _rotate(rvec, _unit(hvec), math.pi / 3)
-            tvec = _rotate(rvec, _unit(hvec), 2 * math.pi / 3)
+            # RHP9_SENSE selects the sense of rotation; C03 accepts a body
+            # whose facets 3-6 agree with one of the two senses throughout
+            svec = _rotate(rvec, _unit(hvec), RHP9_SENSE * math.pi / 3)
+            tvec = _rotate(rvec, _unit(hvec), RHP9_SENSE * 2 * math.pi / 3)
         out = []
         dif = pts - np.asarray(base)
         for vec in (rvec, svec, tvec):
